@@ -352,7 +352,8 @@ ADDENDA = {
          "every input; lower is tied four-way to the real ssagen on every run. Back end: C03_backend_correct - for every supported SSA step list "
          "(all 37 dumped opcodes with explicit exclusions), both targets and every input, the gate list of the Lean model ssaCompile of "
          "ssa.Program.Circuit evaluates to ssaEval; ssaCompile is tied gate for gate to the real pre-pass circuit on every run. Package-level "
-         "declarations and shadowing are in the generator and the reference interpreter (Props/C03Pkg.lean).",
+         "declarations and shadowing are in the generator and the reference interpreter (Props/C03Pkg.lean). The front-end fragment now covers "
+         "whole programs with inlined calls (multiple results), arrays, structs and nested aggregates: 92-95 % of generated programs.",
          " + Lean theorems for AST->SSA (scalar fragment) and SSA->gates (all opcodes), each tied to the real compiler stage on every run"),
  "C04": ("Process level: Model/GarblerProc.lean - for every history of overlapping sessions on one shared circuit value each session's OT and result "
          "loop read its own garbling (C04_proc_serves_own) and the UNION of all evaluators' views spans no session's offset (C04_process_secrecy); "
@@ -381,8 +382,15 @@ ADDENDA = {
          "defect found by this check was repaired in /repo (4a72a07).", " + instantiate / main-argument oracles"),
  "C15": ("Multi-row soundness tied to the coefficient vector: C15_kos_set_accept_iff, C15_kos_pair_accept_iff, C15_kos_distinct_sound; the harness "
          "recovers all coefficients from the real receiver in every session, searches them for dependencies and replays the alteration on the real "
-         "sender; the dependent row set that always exists is the known finding C15-kos-dependent-rows-forgery.",
+         "sender; the dependent row set that always exists is the known finding C15-kos-dependent-rows-forgery, now a theorem "
+         "(C15_dependent_rows_exist by pigeonhole, C15_kos_full_statement_false); honest runs never abort for any content of the caller's "
+         "result buffer (C15_kos_history_never_aborts).",
          " + coefficient recovery and dependent-set alterations"),
+ "C06": ("Caller-provided result buffers are part of every call: Model/IknpBuf.lean runs the receive path on the caller's array; "
+         "C06_iknp_receive_buffer_independent, C06_iknp_history_buffers, C06_iknp_bits_dirty; the packed-bit OR-into-buffer defect found by this "
+         "check was repaired in /repo (8f72c8a).", " + named-buffer call histories"),
+ "C17": ("GC histories: Model/PoolGC.lean (header dropped, data retained, collector transition): C17_retained_garbling_valid, "
+         "C17_gc_put_only_by_release_or_error_path; harness mode gchist with forced collections.", " + GC histories"),
  "C16": ("Additionally, in the symbolic free-hash (Dolev-Yao) model of C04 it is proved that the other label of any wire is not derivable from the "
          "evaluator's view under XOR, hashing with any tweak, select-bit setting and fresh labels, hence if every received output label is "
          "adversary-derivable the garbler's result loop returns an error or exactly the plain evaluation (C16_symbolic_no_wrong_result); the "
